@@ -708,9 +708,12 @@ func (wr *Writer) appendMap(rv reflect.Value, depth int, si *sinfo) {
 	wr.buf = append(wr.buf, '{')
 	for _, kv := range keys {
 		rm := rv.MapIndex(kv)
+		if rm.Kind() == reflect.Interface && rm.IsNil() && (wr.OmitNil || wr.OmitEmpty) {
+			continue
+		}
 		if rm.Kind() == reflect.Ptr {
 			if rm.IsNil() {
-				if wr.OmitNil {
+				if wr.OmitNil || wr.OmitEmpty {
 					continue
 				}
 			} else {
